@@ -1766,6 +1766,30 @@ fn generate(tier: &str) -> Vec<String> {
         let tf = format!("f64:{:016x}", f.to_bits());
         cases.push(format!("t_odd {}", tf));
         cases.push(format!("t_even {}", tf));
+        // the conversion of a float to an integer (`i128::try_from(Value)`, F64 arm) has its edges at the
+        // integer type boundaries: every zoo float and its two neighbours, in every float form
+        let mut forms: Vec<String> = vec![format!("flit:{:016x}", f.to_bits()), format!("sf64:{:016x}", f.to_bits())];
+        if (*f as f32) as f64 == *f {
+            forms.push(format!("f32:{:08x}", (*f as f32).to_bits()));
+            forms.push(format!("sf32:{:08x}", (*f as f32).to_bits()));
+        }
+        for nb in [f64::from_bits(f.to_bits().wrapping_add(1)), f64::from_bits(f.to_bits().wrapping_sub(1))] {
+            if nb.is_finite() && nb.is_sign_negative() == f.is_sign_negative() {
+                forms.push(format!("f64:{:016x}", nb.to_bits()));
+                forms.push(format!("flit:{:016x}", nb.to_bits()));
+            }
+        }
+        if f.abs() >= 2.0 && f.abs() < 1e300 {
+            // computed: half of it times two (exact)
+            let h = f / 2.0;
+            let ht = format!("{:?}", h.abs());
+            let x = if h < 0.0 { format!("(-{})", ht) } else { ht };
+            forms.push(format!("fexp:({}*2)={:016x}", x, f.to_bits()));
+        }
+        for tf in &forms {
+            cases.push(format!("t_odd {}", tf));
+            cases.push(format!("t_even {}", tf));
+        }
         for g in &zf {
             cases.push(format!("t_divby {} f64:{:016x}", tf, g.to_bits()));
         }
